@@ -2,6 +2,7 @@
 from __future__ import annotations
 
 import io
+import os
 import itertools
 import json
 import sys
@@ -60,6 +61,12 @@ def snapshot_ops(tree, typed):
         tree.copy_to(other)
         return names_of(other)
 
+    other2 = (TypedTree if typed else Tree)(tree.name)
+
+    def copy_to_shallow():
+        tree.copy_to(other2, deep=False)
+        return names_of(other2)
+
     def to_dict_list():
         return json.dumps(tree.to_dict_list())
 
@@ -72,7 +79,7 @@ def snapshot_ops(tree, typed):
         with tree:
             return names_of(tree)
 
-    return {"save": save, "copy": copy, "filtered": filtered, "copy_to": copy_to, "to_dict_list": to_dict_list, "to_dotfile": to_dotfile, "with tree": with_tree}
+    return {"save": save, "copy": copy, "filtered": filtered, "copy_to": copy_to, "copy_to_shallow": copy_to_shallow, "to_dict_list": to_dict_list, "to_dotfile": to_dotfile, "with tree": with_tree}
 
 
 def controlled_schedule(typed, opname, out, wait=WAIT, mode="sentinel"):
@@ -140,7 +147,7 @@ def controlled_schedule(typed, opname, out, wait=WAIT, mode="sentinel"):
         problems.append(f"{opname} completed while another thread was inside `with tree:`")
     if SENTINEL in text or "sentinel-kind" in text:
         problems.append(f"the snapshot of {opname} contains state that only existed inside another thread's critical section (sentinel)")
-    if mode == "emptied" and snap is not None and "a2" not in text:
+    if mode == "emptied" and snap is not None and ("a2" if opname != "copy_to_shallow" else '"A"') not in text:
         problems.append(f"the snapshot of {opname} shows the emptied tree that only existed inside another thread's critical section")
     return events, problems
 
@@ -308,6 +315,58 @@ def contended_reentrant(typed, opname, wait=0.25):
         problems.append(f"the waiting thread's {opname} did not finish after the owner had left (deadlock)")
     problems += [f"raised {e}" for e in state["err"]]
     return problems
+
+
+LATE_READER_SCRIPT = r"""
+import io, json, sys, threading, time
+sys.path.insert(0, sys.argv[1]); sys.path.insert(0, sys.argv[2])
+from props import c18
+out = []
+for typed in (False, True):
+    for opname in ["save", "copy", "filtered", "copy_to", "copy_to_shallow", "to_dict_list", "to_dotfile", "with tree"]:
+        tree = c18.make_tree(typed)
+        ops = c18.snapshot_ops(tree, typed)
+        res = {}
+        def reader():
+            try:
+                res["snap"] = ops[opname]()
+            except Exception as e:
+                res["err"] = repr(e)
+        alone = threading.active_count() == 1
+        with tree:                       # entered while this is the ONLY live thread of the process
+            s = tree.add(c18.SENTINEL, **({"kind": "sentinel-kind"} if typed else {}))
+            tb = threading.Thread(target=reader, daemon=True)
+            tb.start()
+            tb.join(c18.WAIT)
+            inside = not tb.is_alive()
+            s.remove()
+        tb.join(15)
+        problems = []
+        if tb.is_alive():
+            problems.append("the reader did not terminate (deadlock)")
+        if "err" in res:
+            problems.append("the snapshot operation raised " + res["err"])
+        if inside:
+            problems.append(opname + " completed while the other thread was inside `with tree:`")
+        text = json.dumps(res.get("snap"), default=str)
+        if c18.SENTINEL in text or "sentinel-kind" in text:
+            problems.append("the snapshot of " + opname + " contains state that only existed inside the other thread's critical section (sentinel)")
+        out.append(dict(typed=typed, op=opname, alone=alone, problems=problems))
+print("RESULT " + json.dumps(out))
+"""
+
+
+def late_reader_schedules():
+    """run in a fresh interpreter (so that the writer really is the only live thread when it enters `with tree:`)"""
+    import subprocess
+
+    here = os.path.dirname(os.path.dirname(os.path.abspath(__file__)))
+    repo = os.path.dirname(os.path.dirname(os.path.abspath(sys.modules["nutree"].__file__)))
+    p = subprocess.run([sys.executable, "-B", "-c", LATE_READER_SCRIPT, repo, here], stdout=subprocess.PIPE, stderr=subprocess.PIPE, text=True, timeout=600)
+    for line in p.stdout.splitlines():
+        if line.startswith("RESULT "):
+            return json.loads(line[7:])
+    raise core.MachineryError(f"late-reader subprocess failed: {p.stderr[-400:]}")
 
 
 def stress(typed, n_writers, n_readers, rounds, out):
@@ -613,7 +672,13 @@ def run(ctx):
         "value map). Plus: nested re-entrant use by the owner of every operation (no deadlock), and a stress run with paired writes (thorough: more threads/rounds). "
         "The observed event order is replayed on the Lean lock model (every step must be enabled). non-trivial: every schedule involves 2 threads and a critical section"
     )
-    ops = ["save", "copy", "filtered", "copy_to", "to_dict_list", "to_dotfile", "with tree"]
+    ops = ["save", "copy", "filtered", "copy_to", "copy_to_shallow", "to_dict_list", "to_dotfile", "with tree"]
+    for r_ in late_reader_schedules():
+        out.count((r_["typed"], r_["op"], "late-reader"), True)
+        out.dist["late-reader:" + r_["op"]] += 1
+        for p in r_["problems"]:
+            out.fail(dict(kind="late-reader", typed=r_["typed"], op=r_["op"]),
+                     f"[{'TypedTree' if r_['typed'] else 'Tree'}.{r_['op']}, the reader thread is started while the only other thread is inside `with tree:`] {p}")
     for typed in (False, True):
         for opname in ops:
             events, problems = controlled_schedule(typed, opname, out)
@@ -626,7 +691,7 @@ def run(ctx):
             if not problems:
                 a_first = [e for e in events if e.startswith("A.")]
                 order = [0 if e.startswith("A.") else 1 for e in events if e.startswith("A.") or e.startswith("B.done")]
-                m = ctx.driver.ask({"op": "lock.replay", "typed": typed, "method": opname, "order": order})
+                m = ctx.driver.ask({"op": "lock.replay", "typed": typed, "method": ("copy_to" if opname == "copy_to_shallow" else opname), "order": order})
                 if "fail" in m:
                     raise core.MachineryError(f"driver: {m}")
                 if not m.get("ok"):
@@ -705,6 +770,10 @@ def replay(ctx, rp):
     if case.get("kind") == "reader-first":
         events, problems = reader_first_schedule(case["typed"], case["op"])
         return dict(events=events, problems=problems, property_holds=not problems)
+    if case.get("kind") == "late-reader":
+        rs = [r_ for r_ in late_reader_schedules() if r_["typed"] == case["typed"] and r_["op"] == case["op"]]
+        problems = [p for r_ in rs for p in r_["problems"]]
+        return dict(problems=problems, property_holds=not problems)
     if case.get("kind") == "contended-reentrant":
         problems = contended_reentrant(case["typed"], case["op"])
         return dict(problems=problems, property_holds=not problems)
